@@ -45,6 +45,7 @@ type models struct {
 	abort    interface{}
 	hostWG   sync.WaitGroup
 	preempts int
+	syncVC   map[interface{}]vclock
 	schedOn  bool // explore interleavings
 	chanSeq  int
 
@@ -78,6 +79,7 @@ func (m *models) reset() {
 	m.dead = false
 	m.abort = nil
 	m.preempts = 0
+	m.syncVC = nil
 	m.schedOn = false
 	m.chanSeq = 0
 	m.mutexes = map[*value]*mutexState{}
@@ -420,14 +422,14 @@ func (w *Worker) trySend(c *chanObj, v value) bool {
 		if r.sel != nil {
 			r.sel.fired, r.sel.idx, r.sel.v, r.sel.ok = true, r.idx, v, true
 		}
-		w.m.cur.vc.tick(w.m.cur.id)
 		r.th.vc.join(w.m.cur.vc)
+		w.m.cur.vc.tick(w.m.cur.id)
 		return true
 	}
 	if len(c.buf) < c.cap {
 		c.buf = append(c.buf, v)
-		w.m.cur.vc.tick(w.m.cur.id)
 		c.vc.join(w.m.cur.vc)
+		w.m.cur.vc.tick(w.m.cur.id)
 		return true
 	}
 	return false
@@ -521,8 +523,8 @@ func (w *Worker) chanClose(ch value) {
 		panic(targetPanic{iface{w.i.runtimeErrorString, "close of closed channel"}})
 	}
 	c.closed = true
-	w.m.cur.vc.tick(w.m.cur.id)
 	c.vc.join(w.m.cur.vc)
+	w.m.cur.vc.tick(w.m.cur.id)
 	// wake receivers
 	for _, r := range c.recvq {
 		if r.done || (r.sel != nil && r.sel.fired) {
@@ -701,8 +703,8 @@ func (m *models) unlock(p value) {
 	if !s.locked {
 		panic(targetPanic{iface{m.w.i.runtimeErrorString, "sync: unlock of unlocked mutex"}})
 	}
-	m.cur.vc.tick(m.cur.id)
 	s.vc = m.cur.vc.copy()
+	m.cur.vc.tick(m.cur.id)
 	s.locked = false
 	s.owner = nil
 	m.yield("Mutex.Unlock")
@@ -720,8 +722,8 @@ func (m *models) runlock(p value) {
 		panic(targetPanic{iface{m.w.i.runtimeErrorString, "sync: RUnlock of unlocked RWMutex"}})
 	}
 	s.readers--
-	m.cur.vc.tick(m.cur.id)
 	s.vc.join(m.cur.vc)
+	m.cur.vc.tick(m.cur.id)
 	m.yield("RWMutex.RUnlock")
 }
 func (m *models) wlock(p value) {
@@ -736,8 +738,8 @@ func (m *models) wunlock(p value) {
 	if !s.writer {
 		panic(targetPanic{iface{m.w.i.runtimeErrorString, "sync: Unlock of unlocked RWMutex"}})
 	}
-	m.cur.vc.tick(m.cur.id)
 	s.vc.join(m.cur.vc)
+	m.cur.vc.tick(m.cur.id)
 	s.writer = false
 	m.yield("RWMutex.Unlock")
 }
@@ -754,8 +756,8 @@ func (m *models) wgAdd(p value, d int64) {
 		panic(targetPanic{iface{m.w.i.runtimeErrorString, "sync: negative WaitGroup counter"}})
 	}
 	if d < 0 {
-		m.cur.vc.tick(m.cur.id)
 		s.vc.join(m.cur.vc)
+		m.cur.vc.tick(m.cur.id)
 	}
 	m.yield("WaitGroup.Add")
 }
@@ -791,8 +793,8 @@ func (m *models) onceDo(p value, f value) {
 	s.running = true
 	defer func() {
 		s.done = true
-		m.cur.vc.tick(m.cur.id)
 		s.vc = m.cur.vc.copy()
+		m.cur.vc.tick(m.cur.id)
 	}()
 	call(m.w.i, nil, token.NoPos, f, nil)
 }
